@@ -10,6 +10,7 @@
   same_termination
   eager_syntax_witness
   match_range_witness
+  match_range_text_witness
   tables_as_modelled
   prepare_terminates
   more_fuel_same_result
@@ -31,11 +32,11 @@ open Genshi.Incl
 /-- the simulation at every fuel: entering related streams in related contexts gives related results -/
 theorem sim {T : List Name} {files : Files} (hH : inH T files = true) :
     ∀ f : Nat, JRel T files (render .runtime files f) (render .inlineM files f)
-  | 0 => by intro z rng raw prep s s' _ _ _; exact True.intro
+  | 0 => by intro z rR rI raw prep s s' _ _ _; exact True.intro
   | f + 1 => by
-    intro z rng raw prep s s' hp hz h
+    intro z rR rI raw prep s s' hp hz h
     rw [render_succ, render_succ]
-    exact simL (loadOK_of_inH hH) (sim hH f) hp rng s s' hz h
+    exact simL (loadOK_of_inH hH) (textOK_of_inH hH) (sim hH f) hp rR rI s s' hz h
 
 /-
   Full statement (false for the model and for the code, see the witnesses below):
@@ -45,7 +46,9 @@ theorem sim {T : List Name} {files : Files} (hH : inH T files = true) :
     * no statically named include and no macro call inside an element whose tag has a match
       template (tag in `T`) nor inside a match template body, every match template is written for
       a tag in `T` (else: finding C11-match-range),
-    * statically named includes are relative and name the class of their target.
+    * statically named includes are relative and name the class of their target,
+    * text templates make no macro calls (their pipeline has no match filter; else: finding
+      C11-match-range-text).
 -/
 theorem inline_eq_runtime_partial (T : List Name) (files : Files) (hH : inH T files = true)
     (entry : Name) (kind : Kind) (data : List (Name × Value)) (fuel : Nat) :
@@ -64,10 +67,11 @@ theorem inline_eq_runtime_partial (T : List Name) (files : Files) (hH : inH T fi
     simp only [hli, Res.map_ok, Res.bind_ok]
     have h0 : StRel T files (St.init data) { St.init data with cache := c' } :=
       ⟨rfl, rfl, .nil, .nil, hc'⟩
-    have := simL (loadOK_of_inH hH) (sim hH fuel) hp .full _ _ (fun _ => rfl) h0
+    have := simL (loadOK_of_inH hH) (textOK_of_inH hH) (sim hH fuel) hp (.ofKind kind) (.ofKind kind) _ _
+      (Coup.ofKind (loadRaw_text (textOK_of_inH hH) hraw) (fun hk => by subst hk; rfl)) h0
     revert this
-    cases renderL .runtime files (render .runtime files fuel) Rng.full body (St.init data) <;>
-      cases renderL .inlineM files (render .inlineM files fuel) Rng.full body' { St.init data with cache := c' } <;>
+    cases renderL .runtime files (render .runtime files fuel) (Rng.ofKind kind) body (St.init data) <;>
+      cases renderL .inlineM files (render .inlineM files fuel) (Rng.ofKind kind) body' { St.init data with cache := c' } <;>
       simp [RRel]
     · intro h; exact h.symm
     · intro h _; exact h.symm
@@ -93,10 +97,11 @@ theorem renderOn_eq {T : List Name} {files : Files} (hH : inH T files = true) (f
     simp only [hli, Res.map_ok, Res.bind_ok]
     have h0 : StRel T files { St.init data with cache := [] } { St.init data with cache := c' } :=
       ⟨rfl, rfl, .nil, .nil, hc'⟩
-    have := simL (loadOK_of_inH hH) (sim hH fuel) hp .full _ _ (fun _ => rfl) h0
+    have := simL (loadOK_of_inH hH) (textOK_of_inH hH) (sim hH fuel) hp (.ofKind kind) (.ofKind kind) _ _
+      (Coup.ofKind (loadRaw_text (textOK_of_inH hH) hraw) (fun hk => by subst hk; rfl)) h0
     revert this
-    cases renderL .runtime files (render .runtime files fuel) Rng.full body { St.init data with cache := [] } <;>
-      cases renderL .inlineM files (render .inlineM files fuel) Rng.full body' { St.init data with cache := c' } <;>
+    cases renderL .runtime files (render .runtime files fuel) (Rng.ofKind kind) body { St.init data with cache := [] } <;>
+      cases renderL .inlineM files (render .inlineM files fuel) (Rng.ofKind kind) body' { St.init data with cache := c' } <;>
       simp [RRel, hc]
     · intro h; exact h.symm
     · intro h hs; exact ⟨h.symm, hs.cache⟩
@@ -123,8 +128,8 @@ theorem inline_seq_eq_runtime_partial (T : List Name) (files : Files) (hH : inH 
         | err e => rfl
         | ok body =>
           simp only [Res.map_ok, Res.bind_ok]
-          have := render_keeps_cache_runtime files fuel .full body { St.init data with cache := [] }
-          cases hx : renderL .runtime files (render .runtime files fuel) Rng.full body { St.init data with cache := [] } with
+          have := render_keeps_cache_runtime files fuel (.ofKind kind) body { St.init data with cache := [] }
+          cases hx : renderL .runtime files (render .runtime files fuel) (Rng.ofKind kind) body { St.init data with cache := [] } with
           | fuel => rfl
           | err e => rfl
           | ok r => simp only; rw [hx] at this; exact this
@@ -166,10 +171,10 @@ theorem more_fuel_same_result (files : Files) (entry : Name) (kind : Kind) (data
     (∀ r, renderInline files entry kind data f = r → r ≠ .fuel → renderInline files entry kind data g = r) := by
   have key : ∀ inl : Mode,
       Le ((loadT inl files entry kind (St.init data)).bind fun r =>
-            (renderL inl files (render inl files f) .full r.1 r.2).map (·.1))
+            (renderL inl files (render inl files f) (.ofKind kind) r.1 r.2).map (·.1))
          ((loadT inl files entry kind (St.init data)).bind fun r =>
-            (renderL inl files (render inl files g) .full r.1 r.2).map (·.1)) := fun inl =>
-    Le.bind (Le.refl _) fun r => Le.map _ (renderL_le inl files (render_le inl files hfg) r.1 .full r.2)
+            (renderL inl files (render inl files g) (.ofKind kind) r.1 r.2).map (·.1)) := fun inl =>
+    Le.bind (Le.refl _) fun r => Le.map _ (renderL_le inl files (render_le inl files hfg) r.1 (.ofKind kind) r.2)
   constructor
   · intro r h hr
     have h1 : Le (renderRuntime files entry kind data f) (renderRuntime files entry kind data g) := key .runtime
@@ -239,11 +244,11 @@ theorem marker_free_same_results (files : Files) (entry : Name) (kind : Kind) (d
     | ok p =>
       obtain ⟨body, st1⟩ := p
       simp only [hl, Res.bind_ok, Res.map_ok] at h ⊢
-      have hd := erase_down files (f + 1) .full body st1
+      have hd := erase_down files (f + 1) (.ofKind kind) body st1
       rw [render_succ, render_succ] at hd
       rcases hd with hd | hd
-      · have : renderL .inlineM files (render .inlineM files f) .full body st1 = .fuel := by
-          cases hx : renderL .inlineM files (render .inlineM files f) .full body st1 <;> simp_all [mapE]
+      · have : renderL .inlineM files (render .inlineM files f) (.ofKind kind) body st1 = .fuel := by
+          cases hx : renderL .inlineM files (render .inlineM files f) (.ofKind kind) body st1 <;> simp_all [mapE]
         rw [this] at h; exact absurd h.symm hr
       · rw [← hd, mapE_map_fst]; exact h
   · intro f h
@@ -254,12 +259,12 @@ theorem marker_free_same_results (files : Files) (entry : Name) (kind : Kind) (d
     | ok p =>
       obtain ⟨body, st1⟩ := p
       simp only [hl, Res.bind_ok, Res.map_ok] at h ⊢
-      have hu := erase_up files (f + 1) .full body st1
+      have hu := erase_up files (f + 1) (.ofKind kind) body st1
       rw [render_succ] at hu
       rcases hu with hu | ⟨g0, y, hy, hm⟩
       · rw [hu] at h; exact absurd h.symm hr
       · refine ⟨g0, ?_⟩
-        have : render .inlineM files (g0 + 1) .full body st1 = y := hy (g0 + 1) (by omega)
+        have : render .inlineM files (g0 + 1) (.ofKind kind) body st1 = y := hy (g0 + 1) (by omega)
         rw [render_succ] at this
         rw [this, ← mapE_map_fst, hm]; exact h
 
@@ -293,7 +298,7 @@ theorem include_replaced_by_target (files : Files) (J : RJ) (rng : Rng) (st : St
     (h : List Char) (cls : Kind) (hasFb : Bool) (fb : List Node) (pos name : Name) (body rest : List Node)
     (hres : resolve pos h = some name) (hfind : files.find name = some ⟨cls, some body⟩) :
     renderL .runtime files J rng (.include (.static h) cls hasFb fb pos :: rest) st =
-      (J .full body st).bind fun r1 =>
+      (J (.ofKind cls) body st).bind fun r1 =>
         (renderL .runtime files J rng rest r1.2).bind fun r2 => .ok (r1.1 ++ r2.1, r2.2) := by
   rw [renderL_cons, renderN_include]
   simp [evalHref, hres, loadT, loadRaw, hfind]
@@ -302,7 +307,7 @@ theorem include_replaced_by_target (files : Files) (J : RJ) (rng : Rng) (st : St
 theorem fallback_iff_missing (files : Files) (J : RJ) (rng : Rng) (st : St)
     (h : List Char) (cls : Kind) (fb : List Node) (pos name : Name)
     (hres : resolve pos h = some name) (hfind : files.find name = none) :
-    renderN .runtime files J rng (.include (.static h) cls true fb pos) st = renderL .runtime files J .full fb st := by
+    renderN .runtime files J rng (.include (.static h) cls true fb pos) st = renderL .runtime files J rng.fresh fb st := by
   rw [renderN_include]
   simp [evalHref, hres, loadT, loadRaw, hfind]
 
@@ -373,6 +378,24 @@ theorem match_range_witness :
     renderRuntime wRange nA .markup [] 5 = .err .notFound := by
   decide +kernel
 
+/-- a.html: `<d><py:match path="q">Q</py:match><py:def function="m0"><q/></py:def>
+<xi:include href="t.txt" parse="text"/></d>`, t.txt: `${m0()}`.  Included at run time the text
+template runs through its own pipeline, which has no match filter: the `<q/>` its macro call
+produces escapes the includer's match template; inlined it does not (finding C11-match-range-text) -/
+def wText : Files :=
+  [[(nA, ⟨.markup, some [.elem ['d'] [
+        .matchT ['q'] [.text ['Q']],
+        .defn ['m', '0'] [.elem ['q'] []],
+        .include (.static ['t', '.', 't', 'x', 't']) .text false [] nA]]⟩),
+    (['t', '.', 't', 'x', 't'], ⟨.text, some [.call ['m', '0']]⟩)]]
+
+theorem match_range_text_witness :
+    renderInline wText nA .markup [] 5 = .ok [.start ['d'], .text ['Q'], .stop ['d']] ∧
+    renderInlineReal wText nA .markup [] 5 = .ok [.start ['d'], .text ['Q'], .stop ['d']] ∧
+    renderRuntime wText nA .markup [] 5 = .ok [.start ['d'], .start ['q'], .stop ['q'], .stop ['d']] := by
+  decide +kernel
+
+example : inH (matchTags wText) wText = false := by decide +kernel
 example : inH (matchTags wEager) wEager = false := by decide +kernel
 example : inH (matchTags wRange) wRange = false := by decide +kernel
 end witnesses
